@@ -207,9 +207,9 @@ example :
     every gettext call `extract_from_code` finds (expressions are opaque and carry that result)
       * in every EXPR and EXEC event, at any depth, also inside excluded elements,
       * in the interpolated attribute values of every START event — also of excluded elements
-        and inside them (repaired: fix 3756726),
+        and inside them (repaired: fix 3dc8094),
       * in the expressions and interpolated attributes of the content of a message directive
-        (repaired: fix 2e1fee9 — the directive `extract` methods skipped EXPR events),
+        (repaired: fix 3c6e4de — the directive `extract` methods skipped EXPR events),
     as `(function, strings)` with an empty comment list (`codeList` collects exactly these). -/
 theorem code_calls_extracted (cfg : Cfg) (s : TStream) (h : okMsgList s = true) :
     ∃ ms, extract cfg s = .ok ms ∧ ∀ c ∈ codeList cfg s, codeMessage c ∈ ms :=
